@@ -489,12 +489,6 @@ func c07WriteFailureRelease(c *Ctx, r *Report, rule string) {
 		return
 	}
 	w := writes[0]
-	rels := c.Calls(fn, false, nameIs("(*db.sequenceAllocator).releaseSequence"))
-	tos := c.Calls(fn, false, nameIs("base.IsTimeoutError"))
-	if len(tos) == 0 {
-		r.Fail(rule, "fn="+name+" timeout-exemption", c.Pos(w.Pos()), "IsTimeoutError test not found on the write-failure path")
-		return
-	}
 	// identify the docSequence cell and unusedSequences cell: allocs passed to documentUpdateFunc inside the literal
 	var docSeqCell, unusedCell ssa.Value
 	for _, lit := range fn.AnonFuncs {
@@ -516,44 +510,73 @@ func c07WriteFailureRelease(c *Ctx, r *Report, rule string) {
 	}
 	r.Pass(rule, "fn="+name+" retry-state=docSequence,unusedSequences declared-outside-CAS-literal", c.Pos(fn.Pos()), "both are cells of the enclosing function")
 
+	// The release block lives in updateAndReturnDoc itself or in a helper that is handed the write's error, docSequence and
+	// unusedSequences (host). isDocSeq / isUnused recognise the two values in the host.
+	host := fn
+	isDocSeq := func(v ssa.Value) bool { ad, ok := loadOf(v); return ok && rootAddr(ad) == docSeqCell }
+	isUnused := func(v ssa.Value) bool { ad, ok := loadOf(v); return ok && rootAddr(ad) == unusedCell }
+	var helperCall ssa.Instruction
+	if len(c.Calls(fn, false, nameIs("base.IsTimeoutError"))) == 0 {
+		EachInstr(fn, false, func(in ssa.Instruction) {
+			ci, ok := in.(ssa.CallInstruction)
+			if !ok || helperCall != nil {
+				return
+			}
+			cal := ci.Common().StaticCallee()
+			if cal == nil || cal.Parent() != nil || !c.InScope(cal) || len(c.Calls(cal, false, nameIs("base.IsTimeoutError"))) == 0 {
+				return
+			}
+			di, ui := -1, -1
+			for i, a := range ci.Common().Args {
+				if isDocSeq(a) {
+					di = i
+				}
+				if isUnused(a) {
+					ui = i
+				}
+			}
+			if di >= 0 && ui >= 0 && di < len(cal.Params) && ui < len(cal.Params) {
+				helperCall = in
+				host = cal
+				pd, pu := cal.Params[di], cal.Params[ui]
+				isDocSeq = func(v ssa.Value) bool { return v == ssa.Value(pd) }
+				isUnused = func(v ssa.Value) bool { return v == ssa.Value(pu) }
+			}
+		})
+	}
+	rels := c.Calls(host, false, nameIs("(*db.sequenceAllocator).releaseSequence"))
+	tos := c.Calls(host, false, nameIs("base.IsTimeoutError"))
+	if len(tos) == 0 {
+		r.Fail(rule, "fn="+name+" timeout-exemption", c.Pos(w.Pos()), "IsTimeoutError test not found on the write-failure path")
+		return
+	}
 	var relDoc, relUnused []ssa.Instruction
 	for _, rel := range rels {
 		a := callArgs(rel)
 		if len(a) < 2 {
 			continue
 		}
-		if ad, ok := loadOf(a[1]); ok && rootAddr(ad) == docSeqCell {
+		if isDocSeq(a[1]) {
 			relDoc = append(relDoc, rel)
 			continue
 		}
 		// element of a range over unusedSequences
-		if DependsOn(a[1], func(v ssa.Value) bool {
-			if ad, ok := loadOf(v); ok && rootAddr(ad) == unusedCell {
-				return true
-			}
-			return false
-		}) {
+		if DependsOn(a[1], isUnused) {
 			relUnused = append(relUnused, rel)
 		}
 	}
-	// error edges of the write result
+	// error value of the write
 	wv := valueOfCall(w)
 	errVals := map[ssa.Value]bool{}
 	for _, e := range resultValues(wv.(*ssa.Call), 1) {
 		errVals[e] = true
 	}
-	isErr := func(v ssa.Value) bool {
-		v = unwrapLoadFree(v)
-		return errVals[v]
-	}
-	_ = isErr
-	// Timeout test false edges
-	var notTimeout, timeoutEdges []Edge
+	// Timeout test false edges (in the host)
+	var notTimeout []Edge
 	for _, t := range tos {
 		tv := valueOfCall(t)
-		pos, neg := EdgesOnValue(fn, func(v ssa.Value) bool { return v == tv })
+		_, neg := EdgesOnValue(host, func(v ssa.Value) bool { return v == tv })
 		notTimeout = append(notTimeout, neg...)
-		timeoutEdges = append(timeoutEdges, pos...)
 	}
 	if len(notTimeout) == 0 {
 		r.Fail(rule, "fn="+name+" timeout-exemption", c.Pos(w.Pos()), "IsTimeoutError result does not decide a branch")
@@ -562,12 +585,12 @@ func c07WriteFailureRelease(c *Ctx, r *Report, rule string) {
 	isRet := func(in ssa.Instruction) bool { _, ok := in.(*ssa.Return); return ok }
 	for i, e := range notTimeout {
 		// docSequence: every path from the not-timeout edge to a return passes releaseSequence(docSequence) or the docSequence<=0 edge
-		zeroEdges := EdgesWhere(fn, func(cond ssa.Value) (bool, bool) {
+		zeroEdges := EdgesWhere(host, func(cond ssa.Value) (bool, bool) {
 			b, ok := cond.(*ssa.BinOp)
 			if !ok {
 				return false, false
 			}
-			if ad, ok := loadOf(b.X); ok && rootAddr(ad) == docSeqCell {
+			if isDocSeq(b.X) {
 				if k, ok := constInt(b.Y); ok && k == 0 {
 					switch b.Op {
 					case token.GTR, token.NEQ:
@@ -583,15 +606,29 @@ func c07WriteFailureRelease(c *Ctx, r *Report, rule string) {
 		leak := ReachFrom(e.To(), 0, isRet, av)
 		r.Check(rule, fmt.Sprintf("fn=%s failed-write releases=docSequence #%d", name, i+1), c.Pos(w.Pos()), len(relDoc) > 0 && leak == nil,
 			"every non-timeout failure path releases docSequence (or it is 0)", "a non-timeout failure path returns without releasing the sequence allocated for this write")
-		// unused sequences: must pass through a release of an element (loop body) — structural: the range loop over unusedSequences is on every path
+		// unused sequences: the range loop over unusedSequences is on every path
 		var rangeHeads []ssa.Instruction
-		EachInstr(fn, false, func(in ssa.Instruction) {
-			// len(unusedSequences) evaluation at the head of the range loop, or the load feeding the range
-			if u, ok := in.(*ssa.UnOp); ok && u.Op == token.MUL && rootAddr(u.X) == unusedCell {
-				for _, rel := range relUnused {
-					if u.Block().Dominates(rel.Block()) {
-						rangeHeads = append(rangeHeads, u)
+		EachInstr(host, false, func(in ssa.Instruction) {
+			v, isVal := in.(ssa.Value)
+			uses := false
+			if isVal && isUnused(v) {
+				uses = true // load of the cell
+			}
+			if ops := in.Operands(nil); !uses {
+				for _, op := range ops {
+					if op != nil && *op != nil && isUnused(*op) {
+						if _, isParam := (*op).(*ssa.Parameter); isParam {
+							uses = true // direct use of the helper's parameter (len / index at the loop head)
+						}
 					}
+				}
+			}
+			if !uses {
+				return
+			}
+			for _, rel := range relUnused {
+				if in.Block().Dominates(rel.Block()) {
+					rangeHeads = append(rangeHeads, in)
 				}
 			}
 		})
@@ -601,21 +638,25 @@ func c07WriteFailureRelease(c *Ctx, r *Report, rule string) {
 	}
 	// release calls must not be reachable on success or timeout: each release is dominated by a not-timeout edge
 	for i, rel := range append(append([]ssa.Instruction{}, relDoc...), relUnused...) {
-		ok := DominatedBy(fn, rel, NewAvoid().AddEdge(notTimeout...))
+		ok := DominatedBy(host, rel, NewAvoid().AddEdge(notTimeout...))
 		r.Check(rule, fmt.Sprintf("fn=%s release #%d only-on=non-timeout-failure", name, i+1), c.Pos(rel.Pos()), ok, "dominated by the !IsTimeoutError edge", "a sequence can be released although the write may have succeeded (success or timeout path): the number could be both stored and published as unused")
 	}
-	// every path from a failed write to a function exit evaluates the timeout test (no early exit before the release block)
+	// every path from a failed write to a function exit evaluates the timeout test / enters the release helper (no early exit before it)
 	{
 		var ev ssa.Value
 		for e := range errVals {
 			ev = e
 		}
 		_, nilEdges := EdgesOnValue(fn, func(v ssa.Value) bool { return unwrapLoadFree(v) == ev })
-		var toInstr []ssa.Instruction
-		for _, t := range tos {
-			toInstr = append(toInstr, t)
+		var barrier []ssa.Instruction
+		if helperCall != nil {
+			barrier = append(barrier, helperCall)
+		} else {
+			for _, t := range tos {
+				barrier = append(barrier, t)
+			}
 		}
-		early := ReachAfter(w, isRet, NewAvoid().AddEdge(nilEdges...).AddInstr(toInstr...))
+		early := ReachAfter(w, isRet, NewAvoid().AddEdge(nilEdges...).AddInstr(barrier...))
 		where := ""
 		if early != nil {
 			where = c.Pos(early.Pos())
@@ -623,7 +664,7 @@ func c07WriteFailureRelease(c *Ctx, r *Report, rule string) {
 		r.Check(rule, "fn="+name+" failed-write every-exit-after=timeout-test", c.Pos(w.Pos()), ev != nil && len(nilEdges) > 0 && early == nil,
 			"no exit between a failed write and the release block", "a failed (or cancelled) write can return at "+where+" before the release block runs: sequences reserved in earlier CAS attempts are neither stored nor released")
 	}
-	// and the timeout test itself must be on the failure edge of the write
+	// and the timeout test (or the helper that performs it) must be on the failure edge of the write, judging the write's error
 	errEdges := EdgesWhere(fn, func(cond ssa.Value) (bool, bool) {
 		x, trueMeansNil, ok := NilTest(cond)
 		if !ok || !isErrorType(x.Type()) {
@@ -631,9 +672,24 @@ func c07WriteFailureRelease(c *Ctx, r *Report, rule string) {
 		}
 		return true, !trueMeansNil
 	})
-	for i, t := range tos {
-		ok := DominatedBy(fn, t, NewAvoid().AddEdge(errEdges...))
-		r.Check(rule, fmt.Sprintf("fn=%s timeout-test #%d on=failure-edge", name, i+1), c.Pos(t.Pos()), ok, "under err != nil", "timeout exemption evaluated outside the failure branch")
+	if helperCall != nil {
+		ok := DominatedBy(fn, helperCall, NewAvoid().AddEdge(errEdges...))
+		r.Check(rule, fmt.Sprintf("fn=%s timeout-test #1 on=failure-edge", name), c.Pos(helperCall.Pos()), ok, "the release helper is entered under err != nil", "timeout exemption evaluated outside the failure branch")
+		// the helper's timeout test judges the error it was handed
+		okArg := false
+		for _, t := range tos {
+			if a := t.Common().Args; len(a) > 0 {
+				if _, isParam := a[0].(*ssa.Parameter); isParam {
+					okArg = true
+				}
+			}
+		}
+		r.Check(rule, fmt.Sprintf("fn=%s release-helper judges=the-write-error", name), c.Pos(helperCall.Pos()), okArg, "IsTimeoutError is applied to the error parameter", "the release helper's timeout test does not judge the error of the failed write")
+	} else {
+		for i, t := range tos {
+			ok := DominatedBy(fn, t, NewAvoid().AddEdge(errEdges...))
+			r.Check(rule, fmt.Sprintf("fn=%s timeout-test #%d on=failure-edge", name, i+1), c.Pos(t.Pos()), ok, "under err != nil", "timeout exemption evaluated outside the failure branch")
+		}
 	}
 }
 
